@@ -610,8 +610,9 @@ class Vector():
 			return self._underlying[key[-1]][key[:-1]]
 
 		key = self._check_duplicate(key)
-		if isinstance(key, Vector) and key.schema() is None and len(key) == 0:
-			# an untyped empty vector (Vector([])) selects nothing
+		if (isinstance(key, list) or (isinstance(key, Vector) and key.schema() is None)) and len(key) == 0:
+			# an untyped empty vector (Vector([])) and the empty list - the index list of no
+			# position, the mask of no element - select nothing
 			return self.copy((), name=self._name)
 		if isinstance(key, Vector) and key.schema() is not None and key.schema().kind == bool and not key.schema().nullable:
 			if len(self) != len(key):
@@ -673,9 +674,10 @@ class Vector():
 
 		updates = []  # list of (idx, new_value)
 
-		# an untyped empty vector (Vector([])) addresses nothing, as in v[Vector([])]:
-		# handled like the empty index list
-		if isinstance(key, Vector) and key.schema() is None and len(key) == 0:
+		# an untyped empty vector (Vector([])) and the empty list address nothing, as in
+		# v[Vector([])] / v[[]]: handled like the empty index list (an empty list is not a
+		# mask of the wrong length)
+		if (isinstance(key, list) or (isinstance(key, Vector) and key.schema() is None)) and len(key) == 0:
 			key = ()
 
 		# =====================================================================
